@@ -678,7 +678,12 @@ func castArr(opts *options, v value) ([]value, Error) {
 		return sub.c.fields.array(), nil
 	}
 	if ref, ok := v.(*cfgDynamic); ok {
+		// the reference is active only while it is resolved: a list that two
+		// settings refer to is reached along two paths, not re-entered
+		parentFields := opts.activeFields
+		opts.activeFields = newFieldSet(parentFields)
 		unrefed, err := ref.getValue(opts)
+		opts.activeFields = parentFields
 		if err != nil {
 			return nil, raiseMissingMsg(ref.ctx.getParent(), ref.ctx.field, err.Error())
 		}
